@@ -128,7 +128,7 @@ func genCase(t *rapid.T) Case {
 	case b == 6 && gen.Uniform(t, "illegal", 3) == 0:
 		c.Bounds = rapid.SampledFrom([][]int{{2, 1}, {-1}, {0, -1}, {1}, {1, 2}}).Draw(t, "illegalbounds")
 	}
-	c.Mode = rapid.SampledFrom([]string{"ok", "ok", "ok", "err", "valerr", "panic-err", "panic-val", "panic-runtime"}).Draw(t, "mode")
+	c.Mode = rapid.SampledFrom([]string{"ok", "ok", "ok", "err", "valerr", "panic-err", "panic-val", "panic-runtime", "panic-map", "panic-int"}).Draw(t, "mode")
 	// argument count around the bounds
 	lo, hi := fixed, fixed
 	if variadic {
@@ -429,6 +429,15 @@ func check(c Case) pbt.Verdict {
 			if r.Err == nil || !errors.As(r.Err, &re) {
 				return pbt.Failf("panic-not-wrapped", "%s: a runtime panic must become an error that still wraps the original runtime.Error; got value=%v err=%v", desc, r.Val, r.Err)
 			}
+		case mode == "panic-map" || mode == "panic-int":
+			ev, has := box.ErrorValue(r.Err)
+			want := val.I(42)
+			if mode == "panic-map" {
+				want = val.M(map[string]val.V{val.KwMark + "code": val.I(42)})
+			}
+			if r.Err == nil || !has || !val.Eq(val.From(ev), want) {
+				return pbt.Failf("panic-value-lost", "%s: panic(lisp value) must become an error carrying that value; got value=%v err=%v", desc, r.Val, r.Err)
+			}
 		case mode == "panic-val":
 			ev, has := box.ErrorValue(r.Err)
 			if r.Err == nil || !has || ev != "verif-panic-value" {
@@ -449,6 +458,24 @@ func check(c Case) pbt.Verdict {
 				return pbt.Failf("result-mapping", "%s: the value result was dropped", desc)
 			}
 		}
+	}
+	// a second call of the same registration under another context (derived from the same parent, hence with the
+	// same Done channel) sees THAT context
+	if wantEntered && hasCtx {
+		p.reset("ok")
+		ctxB := context.WithValue(context.Background(), p.ctxKey, planted{"planted-for-the-second-call"})
+		rb := box.Eval(ctxB, types.List{Val: form}, e)
+		eb := p.entries()
+		if rb.Panicked {
+			return pbt.Failf("panic:"+rb.PanicSite, "%s: second call panicked: %v", desc, rb.PanicVal)
+		}
+		if len(eb) != 1 {
+			return pbt.Failf("not-entered-inside-contract", "%s: second call under another context: %d invocations (error: %v)", desc, len(eb), rb.Err)
+		}
+		if pv, ok := eb[0].CtxVal.(planted); !ok || pv.s != "planted-for-the-second-call" {
+			return pbt.Failf("context-not-injected", "%s: on a second call under another context the function received %v, not the context given to that EVAL", desc, eb[0].CtxVal)
+		}
+		p.reset(c.Mode)
 	}
 	// every error is catchable by try/catch
 	if r.Err != nil {
